@@ -830,21 +830,20 @@ func ruleWindowNumeric(c *Check, p *Program, retainRule, boundRule string) {
 		l0, has := a.vals[ok0+".len"]
 		o0 := a.vals[ok0+".off"]
 		if retainRule != "" {
-			holds := false
-			why := ""
-			if !has {
-				why = "the dictionary as loaded before the update is not known in this state"
-			} else {
-				suffix := a.st.entailsEq(d.off.Add(d.len), o0.Add(l0))
-				whole := a.st.entailsEq(d.len, l0)
-				window := a.st.minGE(N, qi(65535))
-				holds = suffix && (whole || window)
-				if !holds {
-					_, mn := a.st.max(N.Neg())
-					why = fmt.Sprintf("kept part is a suffix of the old dictionary: %v; nothing dropped: %v; new length >= 65535: %v (min new length %s) (state from block %d)", suffix, whole, window, mn.Neg().String(), a.from)
-				}
+			// what the append produced, remembered for the check at the function's returns (the window may be trimmed
+			// before or after the append): $w.H = all history (old dictionary + block), $w.L = length of the appended
+			// slice, $w.ok = the part of the old dictionary that went into it was a suffix of the old dictionary
+			okPart := has && a.st.entailsEq(d.off.Add(d.len), o0.Add(l0))
+			if has {
+				a.vals["fld:w.H"] = l0.Add(blk.len)
 			}
-			g.coll.check("retain", "Reader.read#window-retained", g.prog.InstrPos(st), "after a block is appended the dictionary still holds the most recent 65535 bytes of history (or all of it): the kept part is a suffix of the old dictionary and either nothing was dropped or the new length is at least 65535", holds, func() string { return why })
+			a.vals["fld:w.L"] = N
+			if okPart {
+				a.vals["fld:w.ok"] = linI(1)
+			} else {
+				a.vals["fld:w.ok"] = linI(0)
+			}
+			a.meta["w.pos"] = g.prog.InstrPos(st)
 		}
 		if boundRule != "" {
 			holds := a.st.entailsEq(d.len, linI(0))
@@ -859,6 +858,37 @@ func ruleWindowNumeric(c *Check, p *Program, retainRule, boundRule string) {
 			})
 		}
 	}}
+	if retainRule != "" {
+		// every value stored into r.dict from the append on (the append's own result, and a trim that follows it) is
+		// judged in the state of its own path: the two admissible outcomes (nothing dropped / at least a window kept)
+		// belong to different paths and do not survive a merge
+		hooks.onStore = func(g *goProg, a *AbsState, st *ssa.Store) {
+			if !strings.HasSuffix(g.fieldCell(st.Addr), "Reader.dict") || !isSliceType(st.Val.Type()) {
+				return
+			}
+			L, hasL := a.vals["fld:w.L"]
+			if !hasL {
+				return // before the append of this call
+			}
+			H, hasH := a.vals["fld:w.H"]
+			okPart := a.vals["fld:w.ok"].isConst() && a.vals["fld:w.ok"].k.Sign() > 0
+			sv := g.sliceOf(a, st.Val)
+			holds, why := false, ""
+			if !hasH {
+				why = "the dictionary as loaded before the update is not known in this state"
+			} else {
+				suffix := okPart && a.st.entailsEq(sv.off.Add(sv.len), L)
+				whole := a.st.entailsEq(sv.len, H)
+				window := a.st.minGE(sv.len, qi(65535))
+				holds = suffix && (whole || window)
+				if !holds {
+					_, mn := a.st.max(sv.len.Neg())
+					why = fmt.Sprintf("what is kept is the end of (old dictionary + block): %v; nothing dropped: %v; length kept >= 65535: %v (min length kept %s) (state from block %d)", suffix, whole, window, mn.Neg().String(), a.from)
+				}
+			}
+			g.coll.check("retain", "Reader.read#window-retained", g.prog.InstrPos(st), "from the append of a block on, what is stored into the dictionary is the end of the old dictionary followed by the block, and either nothing was dropped or at least 65535 bytes of history remain", holds, func() string { return why })
+		}
+	}
 	lp0 := lpCount
 	res, _, err := analyseGoFunc(p, fn, "Reader.read", nil, hooks, coll)
 	c.LPQ += lpCount - lp0
@@ -3005,4 +3035,97 @@ func ruleInitWAfterDescriptor(c *Check, p *Program, rule string) {
 		return setsSize(in)
 	}, nil)
 	c.Cond(!late, rule, "Frame.InitW#pipeline-after-descriptor", p.InstrPos(init), "Blocks.initW (which fetches the block buffer for the descriptor's block size) runs after every write of the block-size code in Frame.InitW", "no block-size write is reachable after the call", "the block-size code is written after Blocks.initW has fetched the block buffer: a fresh sequential legacy Writer compresses its 8 MiB blocks into a buffer of the previous size and stores them raw when they do not fit, a reused or concurrent one does not")
+}
+
+// ---------------------------------------------------------------------------
+// R16.8: the decoding mode is looked at after the frame header has decided it.
+// Reader.init forces sequential decoding for frames with dependent blocks (and
+// legacy frames): it stores num = 1 and creates no pipeline. A mode test whose
+// value was computed before a call that reaches Reader.init and is used after
+// it selects the concurrent path for such a frame and waits on a channel that
+// does not exist.
+
+func ruleModeAfterInit(c *Check, p *Program, rule string) {
+	n := 0
+	for _, name := range []string{"Reader.Read", "Reader.WriteTo"} {
+		fn := findFn(c, p, rule, "", name)
+		if fn == nil {
+			continue
+		}
+		isInit := func(in ssa.Instruction) bool {
+			ci, ok := in.(ssa.CallInstruction)
+			if !ok {
+				return false
+			}
+			hit := func(x ssa.CallInstruction) bool { return calleeIs(x, pkgRoot, "Reader.init") }
+			return hit(ci) || callReaches(ci, hit)
+		}
+		hasInit := false
+		allInstrs(fn, func(in ssa.Instruction) {
+			if isInit(in) {
+				hasInit = true
+			}
+		})
+		if !hasInit {
+			continue
+		}
+		allInstrs(fn, func(in ssa.Instruction) {
+			v, isV := in.(ssa.Value)
+			if !isV {
+				return
+			}
+			mode := false
+			if call, ok := in.(*ssa.Call); ok && calleeIs(call, pkgRoot, "Reader.isNotConcurrent") {
+				mode = true
+			}
+			if ld, ok := in.(*ssa.UnOp); ok && ld.Op == token.MUL && lastField(ld.X) == "Reader.num" {
+				mode = true
+			}
+			if !mode {
+				return
+			}
+			n++
+			c.Sites++
+			// a use of the value (or of a comparison built on it) that can be reached from a later init
+			stale := ""
+			var uses []ssa.Instruction
+			var collect func(x ssa.Value, depth int)
+			collect = func(x ssa.Value, depth int) {
+				if depth > 3 || x.Referrers() == nil {
+					return
+				}
+				for _, r := range *x.Referrers() {
+					switch y := r.(type) {
+					case *ssa.If:
+						uses = append(uses, y)
+					case *ssa.BinOp:
+						collect(y, depth+1)
+					case *ssa.UnOp:
+						collect(y, depth+1)
+					case *ssa.Phi:
+						collect(y, depth+1)
+					}
+				}
+			}
+			collect(v, 0)
+			allInstrs(fn, func(j ssa.Instruction) {
+				if stale != "" || !isInit(j) {
+					return
+				}
+				if r, _ := reachAvoid(fn, in, func(x ssa.Instruction) bool { return x == j }, nil); !r {
+					return // this init cannot run after the value was computed
+				}
+				for _, u := range uses {
+					uu := u
+					if r2, _ := reachAvoid(fn, j, func(x ssa.Instruction) bool { return x == uu }, func(x ssa.Instruction) bool { return x == in }); r2 {
+						stale = p.InstrPos(uu)
+					}
+				}
+			})
+			c.Cond(stale == "", rule, fmt.Sprintf("%s#mode-read-after-init#%d", name, n), p.InstrPos(in), "the sequential/concurrent decision uses a value of the mode obtained after Reader.init (which forces sequential decoding for dependent and legacy frames)", "no use of the value is reachable from a later call of init", "the mode value computed here is still used at "+stale+" after Reader.init may have changed the mode: a dependent frame opened with a concurrency above 1 takes the concurrent path and blocks on the missing pipeline")
+		})
+	}
+	if n < 2 {
+		c.Fail(rule, "Reader#mode-tests", "", "the mode tests of Reader.Read and Reader.WriteTo are resolved", fmt.Sprintf("only %d mode test(s) found", n))
+	}
 }
